@@ -201,6 +201,16 @@ pub fn tree_calls(s: &Subject, others: &[Subject]) -> Vec<(String, String, &'sta
     r!("to_formatted_newick", "OnlyNames".to_string(), |c: &mut Tree| c.to_formatted_newick(NewickFormat::OnlyNames));
     r!("to_nexus", String::new(), |c: &mut Tree| c.to_nexus());
     r!("radial_layout", String::new(), |c: &mut Tree| phylotree::tree::draw::radial_layout(c));
+    r!("print", String::new(), |c: &mut Tree| c.print());
+    r!("print_debug", String::new(), |c: &mut Tree| c.print_debug());
+    r!("to_file-unwritable", String::new(), |c: &mut Tree| c.to_file(std::path::Path::new("/nonexistent-dir/x.nwk")));
+    r!("from_file-missing", String::new(), |_c: &mut Tree| Tree::from_file(std::path::Path::new("/nonexistent-dir/x.nwk")));
+    r!("to_file;from_file", String::new(), |c: &mut Tree| {
+        let path = std::env::temp_dir().join(format!("pvh-c20-{}-{:p}.nwk", std::process::id(), c as *const Tree));
+        let r = c.to_file(&path).map_err(|_| ()).and_then(|_| Tree::from_file(&path).map(|_| ()).map_err(|_| ()));
+        let _ = std::fs::remove_file(&path);
+        r
+    });
     r!("compress;get_partitions", String::new(), |c: &mut Tree| { let _ = c.compress(); c.get_partitions() });
     for &x in ids.iter() {
         let a = x.to_string();
@@ -274,6 +284,17 @@ fn matrix_calls() -> Vec<(String, String, &'static str)> {
         mr!("set_taxa-wrong-length", |mut mm: DistanceMatrix<f64>| mm.set_taxa(vec!["x".to_string(); n + 1]));
         mr!("get_taxa_index-unknown", |mm: DistanceMatrix<f64>| mm.get_taxa_index("zz"));
         mr!("upgma", |mm: DistanceMatrix<f64>| mm.upgma());
+        mr!("neighbor_joining", |mm: DistanceMatrix<f64>| mm.neighbor_joining());
+        // files: a path that cannot be read / written is an error value
+        mr!("to_file-unwritable", |mm: DistanceMatrix<f64>| mm.to_file(std::path::Path::new("/nonexistent-dir/x.phy"), true));
+        push("from_file-missing", a.clone(), guarded(|| match DistanceMatrix::<f64>::from_file(std::path::Path::new("/nonexistent-dir/x.phy"), true) { Ok(_) => "ok", Err(_) => "err" }));
+        {
+            let path = std::env::temp_dir().join(format!("pvh-c20-{}-{n}.phy", std::process::id()));
+            let mm = m.clone();
+            let p2 = path.clone();
+            push("to_file;from_file", a.clone(), guarded(AssertUnwindSafe(|| match mm.to_file(&p2, false) { Ok(()) => match DistanceMatrix::<f64>::from_file(&p2, false) { Ok(_) => "ok", Err(_) => "err" }, Err(_) => "err" })));
+            let _ = std::fs::remove_file(&path);
+        }
     }
     // non-finite matrices with at least four taxa
     for (label, v) in [("all-inf", f64::INFINITY), ("all-nan", f64::NAN), ("all-neg", -1.0), ("all-zero", 0.0)] {
@@ -399,7 +420,7 @@ pub fn run(thorough: bool, seed: u64, driver: &str, rep: &mut Report) {
         rep.case(&format!("matrix :: {f}({arg})"), *c != "ok");
         rep.count(&format!("outcome:{c}"));
         if *c == "panic" {
-            let sig_arg = arg.split('@').next().unwrap_or(arg).split("-size").next().unwrap_or(arg).to_string();
+            let sig_arg = if f == "neighbor_joining" { "every-matrix".to_string() } else { arg.split('@').next().unwrap_or(arg).split("-size").next().unwrap_or(arg).to_string() };
             rep.oracle("no-panic", &format!("matrix.{f}@{sig_arg}"), &format!("call: DistanceMatrix::{f}({arg})"), "panic");
         }
     }
